@@ -122,6 +122,12 @@ func checkRobust(c Case) error {
 	}
 	_, _ = enc.Bytes()
 
+	// (iii') no Destination at all: validation only
+	errNil := decode.Decode(nil, s)
+	if !intact(orig, whole) {
+		return harness.Violatef("c02/input-modified", "Decode(nil) modified its input or wrote past it")
+	}
+
 	// (iv) DecodeViewBox, (v) Disassemble
 	_, errVB := decode.DecodeViewBox(s)
 	_, errDis := decode.Disassemble(s)
@@ -129,13 +135,13 @@ func checkRobust(c Case) error {
 		return harness.Violatef("c02/input-modified", "DecodeViewBox/Disassemble modified the input or wrote past it")
 	}
 
-	for name, err := range map[string]error{"Decode(recorder)": errRec, "Decode(renderer)": errRen, "Decode(encoder)": errEnc, "DecodeViewBox": errVB, "Disassemble": errDis} {
+	for name, err := range map[string]error{"Decode(recorder)": errRec, "Decode(renderer)": errRen, "Decode(encoder)": errEnc, "Decode(nil)": errNil, "DecodeViewBox": errVB, "Disassemble": errDis} {
 		if err != nil && !isDecodeError(err) {
 			return harness.Violatef("c02/error-type", "%s returned %T (%v), want a DecodeError", name, err, err)
 		}
 	}
-	if (errRec == nil) != (errRen == nil) || (errRec == nil) != (errEnc == nil) || (errRec == nil) != (errDis == nil) {
-		return harness.Violatef("c02/entry-points-disagree", "accept/reject differs: recorder=%v renderer=%v encoder=%v disassemble=%v", errRec, errRen, errEnc, errDis)
+	if (errRec == nil) != (errRen == nil) || (errRec == nil) != (errEnc == nil) || (errRec == nil) != (errDis == nil) || (errRec == nil) != (errNil == nil) {
+		return harness.Violatef("c02/entry-points-disagree", "accept/reject differs: recorder=%v renderer=%v encoder=%v no-destination=%v disassemble=%v", errRec, errRen, errEnc, errNil, errDis)
 	}
 	metaOK := len(rec.Ops) > 0
 	if (errVB == nil) != p.MetaOK {
@@ -208,7 +214,7 @@ func firstKind(o []ops.Op) string {
 	return o[0].K.String()
 }
 
-var subRobust = harness.Define("robust", "byte strings fed to Decode (into a recorder, a Renderer over a recording rasteriser, an Encoder), DecodeViewBox and Disassemble: no panic, input and a sentinel behind it untouched, DecodeError only, agreement of the five entry points, nothing delivered before valid metadata, first call Reset, calls <= instruction bytes, <= 4 rasteriser calls per call, prefix monotonicity; non-trivial = the reference gets past the metadata and the input is not a verbatim corpus file", checkRobust)
+var subRobust = harness.Define("robust", "byte strings fed to Decode (into a recorder, a Renderer over a recording rasteriser, an Encoder, and with no Destination), DecodeViewBox and Disassemble: no panic, input and a sentinel behind it untouched, DecodeError only, agreement of the six entry points, nothing delivered before valid metadata, first call Reset, calls <= instruction bytes, <= 4 rasteriser calls per call, prefix monotonicity; non-trivial = the reference gets past the metadata and the input is not a verbatim corpus file", checkRobust)
 
 func classify(b []byte) (bool, []string) {
 	p := spec.Parse(b)
